@@ -757,7 +757,9 @@ type roleFn struct {
 }
 
 var roles = []roleFn{
-	{"leader", func(ri *core.RegionsInfo, s uint64, rs []core.KeyRange) *core.RegionInfo { return ri.RandLeaderRegion(s, rs) },
+	{"leader", func(ri *core.RegionsInfo, s uint64, rs []core.KeyRange) *core.RegionInfo {
+		return ri.RandLeaderRegion(s, rs)
+	},
 		func(r *mreg, s uint64) bool {
 			return r.body.Leader >= 0 && r.body.Peers[r.body.Leader].Store == s
 		}},
@@ -772,7 +774,9 @@ var roles = []roleFn{
 			}
 			return false
 		}},
-	{"learner", func(ri *core.RegionsInfo, s uint64, rs []core.KeyRange) *core.RegionInfo { return ri.RandLearnerRegion(s, rs) },
+	{"learner", func(ri *core.RegionsInfo, s uint64, rs []core.KeyRange) *core.RegionInfo {
+		return ri.RandLearnerRegion(s, rs)
+	},
 		func(r *mreg, s uint64) bool {
 			for _, p := range r.body.Peers {
 				if p.Store == s && p.Learner {
@@ -781,7 +785,9 @@ var roles = []roleFn{
 			}
 			return false
 		}},
-	{"pending", func(ri *core.RegionsInfo, s uint64, rs []core.KeyRange) *core.RegionInfo { return ri.RandPendingRegion(s, rs) },
+	{"pending", func(ri *core.RegionsInfo, s uint64, rs []core.KeyRange) *core.RegionInfo {
+		return ri.RandPendingRegion(s, rs)
+	},
 		func(r *mreg, s uint64) bool {
 			for _, p := range r.body.Peers {
 				if p.Store == s && p.Pending {
